@@ -7,6 +7,12 @@
 (*                    x 'nh', 'nn', 'ns', intraday timedeltas (also sub-second), compounds         *)
 (*   month family     midnight starts on days 1/15/28 x t1 = t0 + j months + e days x              *)
 (*                    'nm', 'nq', 'ny' of both signs, compounds such as '1y-3m2d'                  *)
+(*   whole-day x intraday family   starts Thu 00:00, Fri 09:30, Fri 09:30:00.25, Sat 23:59 x t1 on  *)
+(*                    the day WSpan away at every time of day of a menu (and 1 microsecond either   *)
+(*                    side of t0's time of day): endpoints NOT a whole number of days apart, spans  *)
+(*                    of less than a day / less than one bump, x every spelling of a whole-day      *)
+(*                    bump (int where the quantifier admits it, timedelta(days), 'nd', 'nw'),       *)
+(*                    day-and-a-half timedeltas, '24h', whole-day compounds, 'kb'                   *)
 (* Invariants: one per clause of the statement.  Termination is checked as a liveness property    *)
 (* under weak fairness, without any state constraint.  The generator configuration prints every   *)
 (* case with the outcomes the specification accepts, for replay into the real drange (S2C).        *)
@@ -14,7 +20,9 @@ EXTENDS Drange, TLC, Json
 CONSTANTS DSpan,     \* day family: spans -DSpan..DSpan
           NDay,      \* day family: number of start days (from Sat 2000-02-19)
           MJMax,     \* month family: t1 up to MJMax months from t0
-          MYears     \* month family: years of the start days
+          MYears,    \* month family: years of the start days
+          WSpanAbs,  \* whole-day x intraday family: t1 falls on the day t0 + sp or t0 - sp, sp \in WSpanAbs
+          WKAbs      \* whole-day x intraday family: the day counts n, -n of int n / timedelta(n) / 'nd'
 
 T1(n, u) == <<"tenor", <<<<n, u>>>>>>
 T2(a, ua, b, ub) == <<"tenor", <<<<a, ua>>, <<b, ub>>>>>>
@@ -54,7 +62,23 @@ MBumps  == {T1(k, "m") : k \in {-6, -2, -1, 1, 2, 6}} \cup {T1(k, "q") : k \in {
                  T2(-1, "d", 1, "m"), T2(1, "d", -1, "m"), T2(-1, "w", 1, "q"), T2(1, "w", -1, "q"), T2(-11, "m", 1, "y"), T2(11, "m", -1, "y")}
 MonthCases == {<<Midnight(a), Midnight(AddMonths(a, j) + e), b>> : a \in MStarts, j \in MJ, e \in {-1, 0, 1}, b \in MBumps}
 
-Cases == {x \in DayCases \cup IntraCases \cup MonthCases : CaseInDomain(x[1], x[2], x[3])}
+\* -------------------------------------------------------------- whole-day x intraday family -
+\* Whole-day bumps in every spelling between endpoints with times of day of their own.  t1 takes every time of
+\* day of the menu (the starts' own among them: then the endpoints are whole days apart and int / 'kb' join in)
+\* and the instants one microsecond either side of "whole days apart" (the last element is in or out by 1 us).
+WSpan   == WSpanAbs \cup {-sp : sp \in WSpanAbs}
+WK      == WKAbs \cup {-k : k \in WKAbs}
+WStarts == {<<D0 + 5, 0, 0>>, <<D0 + 6, 34200, 0>>, <<D0 + 6, 34200, 250000>>, <<D0 + 7, 86340, 0>>}
+WTods   == {<<0, 0>>, <<21600, 0>>, <<34200, 0>>, <<34200, 250000>>, <<86340, 0>>}
+WEnds(a, sp) == {<<a[1] + sp, x[1], x[2]>> : x \in WTods}
+                \cup {AddDur(a, sp, 0, e) : e \in {-1, 1}}
+WBumps  == UNION {SpellingsOfDays(k) : k \in WK}
+           \cup {<<"td", x>> : x \in {<<1, 43200, 0>>, <<-2, 43200, 0>>, <<0, 86399, 999999>>, <<-2, 86399, 999999>>}}
+           \cup {T1(24, "h"), T1(-24, "h"), T1(1, "b"), T1(-1, "b"), T1(2, "b"), T1(-2, "b"),
+                 T2(1, "d", 0, "h"), T2(-1, "d", 0, "h"), T2(1, "w", -5, "d"), T2(-1, "w", 5, "d")}
+WCases  == UNION {{<<a, z, b>> : z \in UNION {WEnds(a, sp) : sp \in WSpan}, b \in WBumps} : a \in WStarts}
+
+Cases == {x \in DayCases \cup IntraCases \cup MonthCases \cup WCases : CaseInDomain(x[1], x[2], x[3])}
 
 Init == DrInit(Cases)
 Next == DrNext
@@ -102,6 +126,19 @@ Outcome(a, z, b) == IF a = z THEN <<"ok", <<a>>>>
 AcceptSeq(a, z, b) == IF SinglePointWeekend(a, z, b) THEN <<Outcome(a, z, b), <<"ok", <<>>>>>> ELSE <<Outcome(a, z, b)>>
 MachineIsFunction == Halted => Outcome(t0, t1, bump) = (IF st = "rejected" THEN <<"exc", "ValueError">> ELSE <<"ok", out>>)
 
+\* the same for every spelling of a whole-day bump and ANY endpoints (times of day of their own, less than a day /
+\* less than one bump apart): the finished list is the list of each sibling spelling the quantifier admits there, it
+\* is t0, t0 + n days, ... in closed form (so it starts at t0 and keeps t0's time of day), and a sibling is rejected
+\* exactly when this spelling is
+SpellingsSame    == (Halted /\ t0 # t1 /\ IsWholeDayBump(bump)) =>
+                        \A c \in Siblings(t0, t1, bump) :
+                            /\ Outcome(t0, t1, c) = (IF st = "rejected" THEN <<"exc", "ValueError">> ELSE <<"ok", out>>)
+                            /\ st = "done" => IsDrange(t0, t1, c, out)
+WholeDayClosed   == (st = "done" /\ t0 # t1 /\ IsWholeDayBump(bump)) => IsWholeDayList(t0, t1, WholeDays(bump), out)
+\* a span shorter than one bump (in particular: less than a day) is no error: the list is <<t0>>
+ShortSpanIsT0    == (Halted /\ t0 # t1 /\ IsWholeDayBump(bump) /\ Dir(t0, bump) = Forward /\ WholePeriods(t0, t1, WholeDays(bump)) = 0)
+                        => (st = "done" /\ out = <<t0>>)
+
 \* -------------------------------------------------------------------------------- generator --
 Emit(r) == PrintT(ToJson([t0 |-> t0, t1 |-> t1, bump |-> bump, accept |-> r]))
 NextGen == \/ Single /\ Emit(IF SinglePointWeekend(t0, t1, bump) THEN << <<"ok", <<t0>>>>, <<"ok", <<>>>> >> ELSE << <<"ok", <<t0>>>> >>)
@@ -114,9 +151,13 @@ NextGen == \/ Single /\ Emit(IF SinglePointWeekend(t0, t1, bump) THEN << <<"ok",
 \* first call returned.  The list a call returns is a value of its arguments (Outcome): whatever happened
 \* to earlier results, the second call must return what it would return as a first call.
 HWindows == {<<Midnight(a), Midnight(a + sp)>> : a \in D0..(D0 + 3), sp \in {-9, -4, -1, 0, 1, 2, 5, 9}}
+            \* windows whose endpoints have times of day of their own (not whole days apart; less than a day apart)
+            \cup {<<<<D0 + 6, 34200, 0>>, <<D0 + 9, 21600, 0>>>>, <<<<D0 + 9, 21600, 0>>, <<D0 + 6, 34200, 0>>>>,
+                  <<<<D0 + 5, 0, 0>>, <<D0 + 5, 64800, 0>>>>, <<<<D0 + 5, 64800, 0>>, <<D0 + 5, 0, 0>>>>,
+                  <<<<D0 + 3, 0, 0>>, <<D0 - 1, 21600, 0>>>>}
 HFirst   == {<<"int", 1>>, <<"int", -1>>, <<"int", 2>>, <<"td", <<1, 0, 0>>>>, <<"td", <<-1, 0, 0>>>>, T1(1, "d"), T1(1, "b"), T1(-1, "b"), T2(1, "d", 0, "h")}
 HSecond  == {<<"int", k>> : k \in {-7, -2, -1, 1, 2, 3}} \cup {<<"td", <<1, 0, 0>>>>, <<"td", <<-1, 0, 0>>>>, T1(1, "d"), T1(-1, "d"),
-             T1(1, "b"), T1(-1, "b"), T1(2, "b"), T2(1, "d", 0, "h")}
+             T1(1, "b"), T1(-1, "b"), T1(2, "b"), T2(1, "d", 0, "h"), <<"td", <<2, 0, 0>>>>, <<"td", <<-2, 0, 0>>>>}
 Mutations == {"append", "pop", "clear", "reverse"}
 InitHist == /\ \E w \in HWindows : t0 = w[1] /\ t1 = w[2]
             /\ bump \in HFirst /\ cur \in Mutations /\ out \in HSecond /\ st = "run"
